@@ -98,7 +98,9 @@ FIELD = st.one_of(
                      # quotes inside a value (all double quotes are dropped)
                      '5" pvc', 'said "ok" twice', '"', "it's"]),
     st.text("abcXYZ019 ._-;|", max_size=6).map(lambda s: s.strip()))
-COLS = ["Treatment", "pH", "Days", "taxonomy", "KEGG", "Body Site", "Notes"]
+COLS = ["Treatment", "pH", "Days", "taxonomy", "KEGG", "Body Site", "Notes",
+        # names that differ from another one only in case are other names
+        "PH", "days", "Taxonomy"]
 OVERRIDE_NAMES = ["SampleID", "c1", "c2", "c3", "c4", "c5", "c6", "c7"]
 
 
@@ -127,6 +129,11 @@ def file_case(draw, tier):
     if draw(st.integers(0, 3)) == 0:
         k = draw(st.integers(1, ncols + 1))
         header_override = OVERRIDE_NAMES[:k]
+        if k >= 4 and draw(st.booleans()):
+            # entry k names column k: a placeholder name may repeat (the
+            # last column of that name wins), names after it stay in place
+            header_override = list(header_override)
+            header_override[1] = header_override[2] = "skip"
     has_header_line = header_override is None or draw(st.booleans())
     opts = {}
     for name in ("sc_separated", "sc_pipe_separated", "int_fields",
@@ -144,7 +151,8 @@ def file_case(draw, tier):
             ["o0", "o1", "o2"]
         opts = {}
         # reserved hierarchical names are list-valued in HDF5 by definition
-        cols = [c + "_text" if c == "taxonomy" else c for c in cols]
+        cols = [c + "_text" if c in ("taxonomy", "Taxonomy") else c
+                for c in cols]
         have = {r["id"] for r in rows}
         for i in t_ids:
             if i not in have:
